@@ -35,3 +35,15 @@ package interp
 //@   props C13
 //@   opt safety = off
 //@   ensures emptied: interp.env != nil && forallS(k, !has(interp.env, k))
+
+// New: the virtual environment is built from Options.Env — KEY=VALUE, split at the FIRST "=" only —
+// and only in restricted mode.
+//@ func New(options) (r)
+//@   props C13
+//@   opt safety = off
+//@   opt loops = havoc
+//@   opt opaque-calls = *
+//@   opt opaque-havoc = none
+//@   opt ignore-contracts = newFrame
+//@   loop 1 index k
+//@   invariant last-entry-stored: k > 0 ==> has(i.env, envKey(options.Env[k-1])) && i.env[envKey(options.Env[k-1])] == envVal(options.Env[k-1])
